@@ -144,3 +144,38 @@ Fixpoint sizes_cumulative (acc : N) (frames : list bytes) : list N :=
   | [] => []
   | f :: r => (acc + blen f) :: sizes_cumulative (acc + blen f) r
   end.
+
+(* ---- utils/rw_counter.go as shared state of ONE protocol object used full duplex ----
+   Pack (under packLock) and Unpack (under unpackLock) run concurrently on one
+   ReadWriteCounter: the events of a Pack may fall anywhere between the events of an Unpack.
+   binaryPack / structPack: WriteCounter.Zero, then the frame's bytes go through Write;
+   binaryUnpack / structUnpack: ReadCounter.Zero, then every Read adds what it delivered. *)
+Record ctr := mkCtr { c_read : N; c_written : N }.
+
+Inductive cev :=
+| EvZeroR              (* ReadCounter.Zero  *)
+| EvZeroW              (* WriteCounter.Zero *)
+| EvZeroBoth           (* ReadWriteCounter.Zero: not called by the protocols *)
+| EvRead (n : N)       (* ReadCounter.Read delivered n bytes *)
+| EvWrite (n : N).     (* WriteCounter.Write wrote n bytes *)
+
+Definition cstep (c : ctr) (e : cev) : ctr :=
+  match e with
+  | EvZeroR => mkCtr 0 (c_written c)
+  | EvZeroW => mkCtr (c_read c) 0
+  | EvZeroBoth => mkCtr 0 0
+  | EvRead n => mkCtr (c_read c + n) (c_written c)
+  | EvWrite n => mkCtr (c_read c) (c_written c + n)
+  end.
+
+Definition crun (c : ctr) (evs : list cev) : ctr := fold_left cstep evs c.
+
+(* the events of the reading side / of the writing side *)
+Definition is_rd (e : cev) : bool := match e with EvZeroR | EvRead _ => true | _ => false end.
+Definition is_wr (e : cev) : bool := match e with EvZeroW | EvWrite _ => true | _ => false end.
+
+(* Unpack of a frame delivered in reads of the given sizes; Pack of a frame *)
+Definition unpack_events (reads : list N) : list cev := EvZeroR :: map EvRead reads.
+Definition pack_events (len : N) : list cev := [EvZeroW; EvWrite len].
+
+Fixpoint sumN (l : list N) : N := match l with [] => 0 | x :: r => x + sumN r end.
